@@ -189,12 +189,12 @@ theorem chunk_zero_of_slot (S : List (Option H)) {b : Nat} {x : H} (h : S[b]? = 
   rfl
 
 section ctx
-variable {F : Forest H} {adds : List H} (cr : CR H)
+variable {F : Forest H} {adds : List H} (nz : NZ H)
   (hN : F.numLeaves + adds.length ≤ 2 ^ 63)
   (hndG : (F.addMany adds).liveLeaves.Nodup)
   (hleaf : ∀ x ∈ (F.addMany adds).liveLeaves, x ≠ (zero : H) ∧ ∀ a b : H, x ≠ ph a b)
   (hL : DestroySpec F.slots adds.length [])
-include cr hN hndG hleaf hL
+include nz hN hndG hleaf hL
 
 /-- **an added leaf sits at its insertion slot** when the additions destroy no empty root -/
 theorem added_leaf_pos {x : H} (hx : x ∈ adds) :
@@ -223,13 +223,13 @@ theorem added_leaf_pos {x : H} (hx : x ∈ adds) :
     rw [this]
     rfl
   rw [hpos] at sG
-  rw [Spec.posOf_eq_some_iff (by rw [numLeaves_G cr hN hndG hleaf]; omega) hndG]
+  rw [Spec.posOf_eq_some_iff (by rw [numLeaves_G nz hN hndG hleaf]; omega) hndG]
   exact sG.node_mem
 
 /-- an old leaf keeps its position -/
 theorem old_leaf_pos' {x : H} {p : Pos} (hp : F.posOf x = some p) :
     (F.addMany adds).posOf x = some p := by
-  have := old_leaf_pos cr hN hndG hleaf hL hp
+  have := old_leaf_pos nz hN hndG hleaf hL hp
   rwa [addMove_nil] at this
 
 /-- an old node is a node of the new forest at the same position -/
@@ -264,7 +264,7 @@ theorem old_sub {h0 : Nat} {p : Pos} {t : CTree H} (s : SubAtT F h0 p t) :
 
 /-- an old leaf is not an added leaf -/
 theorem old_not_added {x : H} (hx : x ∈ F.liveLeaves) (ha : x ∈ adds) : False :=
-  old_not_new cr hN hndG hleaf hx ha
+  old_not_new nz hN hndG hleaf hx ha
 
 /-- a live leaf of the new forest that was not added is an old leaf -/
 theorem live_old {x : H} (hx : x ∈ (F.addMany adds).liveLeaves) (ha : x ∉ adds) :
@@ -289,8 +289,8 @@ theorem pp_undo_add {K C' : List H} {tgK tgG : List Pos} {hsK hsG : List H}
   obtain ⟨c, hcP, hcr, hcs, rfl⟩ := mem_proofPositions.1 hq
   obtain ⟨h0, tc, sc, l, hl, hlt⟩ := (pathSet_iff_leaf hcF hdF c).1 hcP
   obtain ⟨hrow, ts, _, ss⟩ := sc.parent hcr
-  obtain ⟨T, hT, gc⟩ := old_sub cr hN hndG hleaf hL sc
-  obtain ⟨T', _, gs⟩ := old_sub cr hN hndG hleaf hL ss
+  obtain ⟨T, hT, gc⟩ := old_sub nz hN hndG hleaf hL sc
+  obtain ⟨T', _, gs⟩ := old_sub nz hN hndG hleaf hL ss
   refine ⟨?_, by rw [gs.nodeAt, ss.nodeAt]⟩
   rw [mem_proofPositions]
   refine ⟨c, ?_, ?_, ?_, rfl⟩
@@ -307,7 +307,7 @@ theorem pp_undo_add {K C' : List H} {tgK tgG : List Pos} {hsK hsG : List H}
     rw [pathSet_iff_leaf hcF hdF]
     refine ⟨h0, ts2, ss, l', (hK l').2 ⟨hl', ?_⟩, hlt'⟩
     intro ha
-    exact old_not_added cr hN hndG hleaf hL (ss.leaves_live l' hlt') ha
+    exact old_not_added nz hN hndG hleaf hL (ss.leaves_live l' hlt') ha
 
 end ctx
 
@@ -357,7 +357,7 @@ deletions (not empty); the additions destroy no empty root (`DestroySpec … []`
 ∅`); the cached proof is the canonical proof in `F.addMany adds` of a duplicate-free list `C'`
 (any order).  The result is the canonical proof in `F` of the leaves of `C'` that are not
 additions, targets ascending. -/
-theorem proofUndoAdd_canonical {F : Forest H} {adds : List H} (cr : CR H)
+theorem proofUndoAdd_canonical {F : Forest H} {adds : List H} (nz : NZ H)
     (hN : F.numLeaves + adds.length ≤ 2 ^ 63)
     (hndG : (F.addMany adds).liveLeaves.Nodup)
     (hleaf : ∀ x ∈ (F.addMany adds).liveLeaves, x ≠ (zero : H) ∧ ∀ a b : H, x ≠ ph a b)
@@ -370,7 +370,7 @@ theorem proofUndoAdd_canonical {F : Forest H} {adds : List H} (cr : CR H)
           (BitVec.ofNat 64 (F.addMany adds).numLeaves) C' [] =
         .ok (⟨tgK.map (E F.rows), hsK⟩, K) := by
   have hn : F.numLeaves ≤ 2 ^ 63 := by omega
-  have hnumG := numLeaves_G cr hN hndG hleaf
+  have hnumG := numLeaves_G nz hN hndG hleaf
   have hG : (F.addMany adds).numLeaves ≤ 2 ^ 63 := by rw [hnumG]; exact hN
   have hR : (F.addMany adds).rows = forestRows (F.numLeaves + adds.length) := by
     unfold Forest.rows; rw [hnumG]
@@ -386,9 +386,9 @@ theorem proofUndoAdd_canonical {F : Forest H} {adds : List H} (cr : CR H)
     obtain ⟨hz1, hz2⟩ := List.mem_filter.1 hz
     have hz2' : z.2 ∉ adds := by simpa using hz2
     obtain ⟨hC, hpos, hG', sG⟩ := sortedPairs_mem hG hcG hC' hz1
-    have hlive := live_old cr hN hndG hleaf hL (sG.leaves_live z.2 (by simp [CTree.leaves])) hz2'
+    have hlive := live_old nz hN hndG hleaf hL (sG.leaves_live z.2 (by simp [CTree.leaves])) hz2'
     obtain ⟨p, hp⟩ := Spec.posOf_isSome_of_live (by omega) hlive
-    have hpG := old_leaf_pos' cr hN hndG hleaf hL hp
+    have hpG := old_leaf_pos' nz hN hndG hleaf hL hp
     have e : z.1 = p := by rw [hpos]; unfold posD; rw [hpG]; rfl
     refine ⟨hC, hz2', hlive, ?_, ?_⟩
     · rw [e]; unfold posD; rw [hp]; rfl
@@ -469,16 +469,16 @@ theorem proofUndoAdd_canonical {F : Forest H} {adds : List H} (cr : CR H)
     apply decide_eq_decide.2
     constructor
     · rintro ⟨h1, h2⟩ ha
-      obtain ⟨i, hi, hp⟩ := added_leaf_pos cr hN hndG hleaf hL ha
+      obtain ⟨i, hi, hp⟩ := added_leaf_pos nz hN hndG hleaf hL ha
       rw [hpos] at h1 h2
       unfold posD at h1 h2
       rw [hp] at h1 h2
       simp only [Option.getD_some, Nat.pow_zero, Nat.div_one] at h2
       omega
     · intro ha
-      have hlive := live_old cr hN hndG hleaf hL (sG.leaves_live z.2 (by simp [CTree.leaves])) ha
+      have hlive := live_old nz hN hndG hleaf hL (sG.leaves_live z.2 (by simp [CTree.leaves])) ha
       obtain ⟨p, hp⟩ := Spec.posOf_isSome_of_live (by omega) hlive
-      have hpG := old_leaf_pos' cr hN hndG hleaf hL hp
+      have hpG := old_leaf_pos' nz hN hndG hleaf hL hp
       have e : z.1 = p := by rw [hpos]; unfold posD; rw [hpG]; rfl
       obtain ⟨h0, s0⟩ := posOf_sub hp
       have := s0.inF
@@ -553,7 +553,7 @@ theorem proofUndoAdd_canonical {F : Forest H} {adds : List H} (cr : CR H)
       · rintro ⟨h1, h2⟩
         have := mem_sortedPairs hG hcG hC' h1
         exact List.mem_map.2 ⟨_, List.mem_filter.2 ⟨this, by simpa using h2⟩, rfl⟩
-    obtain ⟨hqG, hhash⟩ := pp_undo_add cr hN hndG hleaf hL hcK hcG hKiff hq
+    obtain ⟨hqG, hhash⟩ := pp_undo_add nz hN hndG hleaf hL hcK hcG hKiff hq
     obtain ⟨h0, t0, s0⟩ := pp_node tokK hq
     have hin : (E (forestRows F.numLeaves) q, ((F.addMany adds).nodeAt q).getD zero) ∈
         PP1.map (enc2 (forestRows F.numLeaves)) := by
